@@ -579,6 +579,198 @@ def tap_mac(side, llc, mon, state):
     mac.exchange = exchange
 
 
+# ------------------------------------------ leg: two senders, one socket
+def run_senders(case, ctx):
+    """two application threads send (blocking) on the same data link
+    connection while the peer consumes at its own pace; the choice list
+    decides every contest between the threads"""
+    full = {"miu": [128, 128], "agf": case["agf"], "rw": case["rw"],
+            "smiu": [128, 128], "client": case["src"], "by_name": False,
+            "early": 0}
+    c = Conn(full)
+    ctx.set_class("senders")
+    pair = LlcPair(128, 128, bool(case["agf"][0]), bool(case["agf"][1]))
+    src = case["src"]
+    dst = other(src)
+    try:
+        mon = attach_monitor(pair, ctx)
+        establish(pair, full, c, ctx, mon)
+        sent_by = ([], [])
+        rcvd = []
+        sock = c.sock[src]
+
+        def sender(part):
+            for k, n in enumerate(case["plan"][part]):
+                msg = message(part * 100 + k, n)
+                if sock.send(msg) is not True:
+                    raise Violation("send-returned-false", "blocking send() "
+                                    "number %d of sender %d" % (k, part))
+                sent_by[part].append(msg)
+        pair.sched.choices, pair.sched.ci = list(case["choices"]), 0
+        p0 = pair.sched.points
+        if case.get("force"):
+            pair.sched.forced = dict((p0 + int(p_), int(k_))
+                                     for p_, k_ in case["force"])
+        boxes = [pair.call(lambda: sender(0), "sender0"),
+                 pair.call(lambda: sender(1), "sender1")]
+        total = len(case["plan"][0]) + len(case["plan"][1])
+        take = case["take"]
+        for rnd in range(8 * total + 20):
+            # the link loop goes from dispatch() of the frame received
+            # straight into the next collect(): woken and arriving
+            # application threads contend while it does
+            pair.autosettle = True
+            pair.xfer(src)
+            pair.autosettle = False
+            # the receiving application takes at most take[...] messages
+            for _ in range(take[rnd % len(take)]):
+                if not c.sock[dst].poll("recv", 0):
+                    break
+                m = c.sock[dst].recv()
+                if m is None:
+                    raise Violation("recv-none", "recv() returned None on a "
+                                    "live connection")
+                rcvd.append(bytes(m))
+            pair.xfer(dst)
+            if all(b.done for b in boxes) and len(rcvd) >= total:
+                break
+        for b in boxes:
+            if isinstance(b.exc, (Violation, HarnessError)):
+                raise b.exc
+            if b.exc is not None:
+                raise unexpected(b.exc, oracle="application-call-raised")
+        for name, e in pair.failures():
+            raise unexpected(e, oracle="thread-died")
+        if not all(b.done for b in boxes):
+            raise Violation("application-stuck", "senders done: %r, sent %d + "
+                            "%d, received %d of %d" % (
+                                [b.done for b in boxes], len(sent_by[0]),
+                                len(sent_by[1]), len(rcvd), total))
+        if not is_interleaving(rcvd, sent_by[0], sent_by[1]):
+            raise Violation("message-lost", "%d messages received are not an "
+                            "interleaving of the %d + %d accepted from the "
+                            "two senders" % (len(rcvd), len(sent_by[0]),
+                                             len(sent_by[1])))
+        ends = mon.all_ends()
+        if any(e.full for e in ends):
+            ctx.label("window-full")
+            ctx.nontrivial()
+        if pair.sched.ci > 0 or case.get("force"):
+            ctx.label("contested-schedule")
+        ctx.note({"max_outstanding": [e.max_out for e in ends],
+                  "choices_used": pair.sched.ci,
+                  "race_points": pair.sched.points - p0})
+    finally:
+        pair.close()
+
+
+class _Points(object):
+    def __init__(self):
+        self.n = 0
+
+    def note(self, d):
+        self.n = d.get("race_points", 0)
+
+    def __getattr__(self, name):
+        return lambda *a, **k: None
+
+
+def enum_senders(tier, seed):
+    """fixed scenarios x one forced pick (thorough: also two) of another
+    runnable thread at every scheduling point of the sending phase"""
+    bases = []
+    for rw in (1, 2, 3):
+        for take in ([1], [1, 0, 0], [0, 2], [3]):
+            for agf in (False, True):
+                bases.append({"src": "a", "agf": [agf, agf], "rw": [rw, rw],
+                              "plan": [[2, 3, 4, 5], [6, 7, 8, 9]],
+                              "take": take, "choices": []})
+    for base in bases:
+        probe = _Points()
+        try:
+            run_senders(dict(base), probe)
+        except Violation:
+            yield dict(base)
+            continue
+        for p_ in range(1, probe.n + 1):
+            for pick in (1, 2):
+                yield dict(base, force=[[p_, pick]])
+                if tier != "quick":
+                    for q_ in range(p_ + 1, min(p_ + 12, probe.n + 1)):
+                        yield dict(base, force=[[p_, pick], [q_, 1]])
+
+
+def senders_case():
+    return st.fixed_dictionaries({
+        "src": st.sampled_from("ab"),
+        "agf": st.tuples(st.booleans(), st.booleans()).map(list),
+        "rw": st.tuples(st.integers(1, 4), st.integers(1, 4)).map(list),
+        "plan": st.tuples(st.lists(st.integers(2, 128), min_size=1, max_size=6),
+                          st.lists(st.integers(2, 128), min_size=1,
+                                   max_size=6)).map(list),
+        "take": st.lists(st.integers(0, 3), min_size=1, max_size=4).filter(
+            lambda t: any(t)),
+        "choices": st.lists(st.integers(0, 3), max_size=40)})
+
+
+class _Probe(object):
+    """ctx stand-in used to learn the number of scheduling points"""
+    def __init__(self):
+        self.points = None
+
+    def note(self, d):
+        self.points = d.get("sched_points")
+
+    def __getattr__(self, name):
+        return lambda *a, **k: None
+
+
+def enum_preempt(tier, seed):
+    """fixed two-sender scenarios over two complete stacks x one forced
+    pick of another runnable thread at every scheduling point"""
+    bases = []
+    for rw in (1, 2, 3):
+        for nm in ((4,) if tier == "quick" else (4, 7)):
+            for agf in (0, 1):
+                for both in (0, 1):
+                    bases.append({
+                        "miu": [128, 128], "agf": [agf, agf], "rw": [rw, rw],
+                        "smiu": [128, 128], "client": "it"[both],
+                        "by_name": False,
+                        "msgs": [[[5, i] for i in range(nm)],
+                                 [[5, i] for i in range(nm if both else 0)]],
+                        "busy": [[], []], "greet": False, "choices": [],
+                        "seed": 0, "stalls": [], "senders2": [1, both]})
+    for base in bases:
+        probe = _Probe()
+        try:
+            run_threads(dict(base), probe)
+        except Violation:
+            yield dict(base)
+            continue
+        for p_ in range(1, (probe.points or 0) + 1):
+            for pick in (1, 2):
+                yield dict(base, force=[[p_, pick]])
+
+
+def is_interleaving(r, a, b):
+    """r consists of exactly the elements of a and b, each in its order"""
+    if len(r) != len(a) + len(b):
+        return False
+    reach = {(0, 0)}
+    for x in r:
+        nxt = set()
+        for i, j in reach:
+            if i < len(a) and a[i] == x:
+                nxt.add((i + 1, j))
+            if j < len(b) and b[j] == x:
+                nxt.add((i, j + 1))
+        if not nxt:
+            return False
+        reach = nxt
+    return True
+
+
 def run_threads(case, ctx):
     sides = ("i", "t")
     idx = {"i": 0, "t": 1}
@@ -609,6 +801,9 @@ def run_threads(case, ctx):
                             "sec": False})
     sched = pair.sched
     sched.stalls = [list(x) for x in case.get("stalls", [])]
+    if case.get("force"):
+        # forced picks at given scheduling points, default policy elsewhere
+        sched.forced = dict((int(p_), int(k_)) for p_, k_ in case["force"])
     import threading
 
     def guarded(name, fn):
@@ -622,13 +817,21 @@ def run_threads(case, ctx):
         th = threading.Thread(target=run, name=name)
         th.start()
 
-    def sender(side, sock):
+    two = dict((s, bool(case.get("senders2", [0, 0])[idx[s]])
+                and len(plan[s]) >= 2) for s in sides)
+    sent_by = dict((s, ([], [])) for s in sides)
+
+    def sender(side, sock, part=0, nparts=1):
+        """sends the messages part, part+nparts, ... of the side's plan"""
         smiu = rmiu["t" if side == "i" else "i"]
         for k, (kind, val) in enumerate(plan[side]):
+            if k % nparts != part:
+                continue
             n = send_size(kind, val, smiu)
-            msg = message(len(sent[side]), min(n, smiu))
+            msg = message(k, min(n, smiu))
             if sock.send(msg) is True:
                 sent[side].append(msg)
+                sent_by[side][part].append(msg)
             else:
                 raise Violation("send-returned-false", "blocking send() "
                                 "number %d at %s" % (k, side))
@@ -666,7 +869,12 @@ def run_threads(case, ctx):
             if not greet:
                 while not mon.ends:     # until the CC PDU went out
                     sched.sleep(0.001)
-            sender(sv, sock)
+            if two[sv]:
+                # a second application thread sending on the same socket
+                guarded("send2-" + sv, lambda: sender(sv, sock, 1, 2))
+                sender(sv, sock, 0, 2)
+            else:
+                sender(sv, sock)
         guarded("send-" + sv, accept)
 
     def client(llc):
@@ -677,12 +885,17 @@ def run_threads(case, ctx):
         def connect():
             sock.connect(SERVICE if case["by_name"] else 40)
             guarded("recv-" + cl, lambda: receiver(cl, sock))
-            sender(cl, sock)
+            if two[cl]:
+                guarded("send2-" + cl, lambda: sender(cl, sock, 1, 2))
+                sender(cl, sock, 0, 2)
+            else:
+                sender(cl, sock)
         guarded("send-" + cl, connect)
 
     pair.on_connect[sv] = serve
     pair.on_connect[cl] = client
-    names = ["send-i", "send-t", "recv-i", "recv-t"]
+    names = ["send-i", "send-t", "recv-i", "recv-t"] + [
+        "send2-" + x for x in sides if two[x]]
     total = len(plan["i"]) + len(plan["t"])
     try:
         pair.start()
@@ -716,6 +929,17 @@ def run_threads(case, ctx):
                                          [len(rcvd[s]) for s in sides]))
         for s in sides:
             o = "t" if s == "i" else "i"
+            if two[o]:
+                # two senders: every accepted message arrives once, each
+                # sender's messages in its own order
+                if not is_interleaving(rcvd[s], sent_by[o][0], sent_by[o][1]):
+                    raise Violation("delivery-order", "%s: the %d messages "
+                                    "received are not an interleaving of the "
+                                    "%d + %d messages the two senders at %s "
+                                    "had accepted" % (
+                                        s, len(rcvd[s]), len(sent_by[o][0]),
+                                        len(sent_by[o][1]), o))
+                continue
             if rcvd[s] != sent[o]:
                 k = 0
                 while k < len(rcvd[s]) and k < len(sent[o]) and \
@@ -749,6 +973,8 @@ def run_threads(case, ctx):
             ctx.label("preemptive-schedule")
         if sched.stalled:
             ctx.label("stalled-threads")
+        if two["i"] or two["t"]:
+            ctx.label("two-senders-one-socket")
         ctx.label("points:%s" % ("<200" if sched.points < 200 else "<1000"
                                  if sched.points < 1000 else "1000+"))
         if nmax >= 17 or (sent["i"] and sent["t"]) or any(e.rnr for e in ends):
@@ -791,10 +1017,14 @@ def threads_case(draw, tier):
                 st.just([]), st.lists(st.integers(0, 5), max_size=60),
                 st.lists(st.integers(0, 5), max_size=600))),
             "seed": draw(st.integers(0, 1000)),
+            # a second application thread sending on the same socket
+            "senders2": [draw(st.sampled_from([0, 0, 1])),
+                         draw(st.sampled_from([0, 0, 1]))],
             # application threads lose the CPU (virtual time) at generated
             # scheduling points while they hold no lock
             "stalls": draw(st.one_of(st.just([]), st.lists(st.tuples(
-                st.sampled_from(["recv-i", "recv-t", "send-i", "send-t"]),
+                st.sampled_from(["recv-i", "recv-t", "send-i", "send-t",
+                                 "send2-i", "send2-t"]),
                 st.integers(1, 200),
                 st.sampled_from([0.002, 0.005, 0.02, 0.05])), max_size=8)))}
 
@@ -818,6 +1048,30 @@ LEGS = [
              "{send a, send b, recv a, recv b, exchange a->b, exchange b->a} "
              "x RW(a),RW(b) in {1,2}; non-trivial = at least one message "
              "accepted."),
+    Leg("senders-enum", run=run_senders, enum=enum_senders, exhaustive=True,
+        shards_quick=8, shards_thorough=16,
+        rule="two threads sending 3 messages each (blocking) on one data "
+             "link connection (controllers pumped by the harness, no pause "
+             "between dispatch() and the next collect()), RW 1-3, "
+             "aggregation on/off, receiver taking 1 / 1,0,0 / 0,2 / 3 "
+             "messages per round x one forced pick of another runnable "
+             "thread (2 alternatives) at every scheduling point of the "
+             "sending phase (thorough: also pairs of forced picks within 12 "
+             "points): woken sender against arriving sender against link "
+             "dispatch; non-trivial = the send window was full at some "
+             "point."),
+    Leg("senders", run=run_senders, gen=lambda tier: senders_case(),
+        quick=300, thorough=6000, shards_quick=6, shards_thorough=16,
+        nt_floor=0.3,
+        rule="same with generated RW 1..4, 1..6 messages of 2..128 bytes per "
+             "sender, aggregation, receiver pace and choice lists <= 40."),
+    Leg("threads-preempt", run=run_threads, enum=enum_preempt,
+        exhaustive=True, shards_quick=16, shards_thorough=16,
+        rule="12 (thorough 24) fixed scenarios over two complete stacks with "
+             "two application threads sending on one socket (RW 1-3, "
+             "aggregation on/off, one or both directions) x one forced pick "
+             "of another runnable thread (2 alternatives) at every "
+             "scheduling point of the scenario; non-trivial as in threads."),
     Leg("threads", run=run_threads, gen=lambda tier: threads_case(tier),
         quick=400, thorough=6000, shards_quick=8, shards_thorough=16,
         nt_floor=0.3,
